@@ -82,8 +82,10 @@ def generate(ctx):
             yield _frame_history(rng)
         elif r < 0.85:
             yield _index_history(rng, hier=False)
-        else:
+        elif r < 0.97:
             yield _index_history(rng, hier=True)
+        else:
+            yield _typed_hier_history(rng)
 
 
 def _frame_history(rng):
@@ -134,6 +136,31 @@ def _frame_history(rng):
     return {'t': 'frame', 'start': start, 'steps': steps}
 
 
+def _typed_hier_history(rng):
+    """A hierarchy whose inner depth is a date index, grown by labels whose date is given in the forms construction accepts."""
+    days = ['2021-03-%02d' % d for d in range(1, 9)]
+    outers = ['a', 'b', 'c', 'd', 'e']
+    start = [(outers[0], d) for d in days[:rng.randint(1, 3)]]
+    steps, o = [], 0
+    held = list(start)
+    for _ in range(rng.randint(2, 9)):
+        r = rng.random()
+        if r < 0.75:
+            if rng.random() < 0.5 and o + 1 < len(outers):
+                o += 1
+            free = [d for d in days if (outers[o], d) not in held]
+            if not free:
+                continue
+            lab = (outers[o], free[0] if rng.random() < 0.7 else rng.choice(free))
+            held.append(lab)
+            steps.append(('append', lab, rng.choice(['str', 'date', 'dt64'])))
+        elif r < 0.88:
+            steps.append(('derive', rng.choice(['copy', 'static_init', 'go_init', 'deepcopy'])))
+        else:
+            steps.append(('read', rng.choice(['values', 'len', 'iter', 'contains'])))
+    return {'t': 'hier_typed', 'kind': 'hier_typed', 'start': start, 'steps': steps, 'depth': 2}
+
+
 def _index_history(rng, hier):
     if hier:
         depth = rng.choice([2, 3])
@@ -158,6 +185,8 @@ def _index_history(rng, hier):
             i += k
         elif r < 0.55 and held:
             steps.append(('append_dup', rng.choice(held)))
+        elif r < 0.6 and hier:
+            steps.append(('extend_type_mismatch', ['zz%d' % len(steps), 'zy%d' % len(steps)][:rng.randint(1, 2)]))
         elif r < 0.68 and held and i + 1 < len(rest):
             steps.append(('extend_partial_dup', [rest[i], rng.choice(held), rest[i + 1]]))
             if hier:
@@ -557,7 +586,72 @@ def check(case, ctx):
     ctx.tally('history_type', case['t'])
     if case['t'] == 'frame':
         return _check_frame_history(case, ctx)
+    if case['t'] == 'hier_typed':
+        return _check_typed_hier_history(case, ctx)
     return _check_index_history(case, ctx)
+
+
+def _check_typed_hier_history(case, ctx):
+    import datetime
+    import static_frame as sf
+    klass = {'t': 'hier_typed', 'kind': 'hier_typed'}
+    as_label = lambda t: (t[0], np.datetime64(t[1], 'D'))
+    idx = sf.IndexHierarchyGO.from_labels(case['start'], index_constructors=(sf.Index, sf.IndexDate))
+    model = [as_label(t) for t in case['start']]
+    live, grown = [], 0
+    for si, step in enumerate(case['steps']):
+        op = step[0]
+        k2 = dict(klass, step=op)
+        ctx.tally('index_step', 'typed:' + op)
+        if op == 'append':
+            (o, d), form = step[1], step[2]
+            given = d if form == 'str' else (datetime.date.fromisoformat(d) if form == 'date' else np.datetime64(d, 'D'))
+            k2['date_form'] = form
+            k2['new_outer'] = all(o != m[0] for m in model)
+            try:
+                idx.append((o, given))
+            except Exception as e:
+                ctx.violation('valid_growth_rejected', detail={'growth': 'append', 'label': repr((o, given)), 'exception': type(e).__name__, 'message': str(e)[:200]},
+                              klass=dict(k2, exception=type(e).__name__))
+                return
+            model.append(as_label(step[1]))
+            grown += 1
+            ctx.tally('outcome', 'grown')
+        elif op == 'derive':
+            what = step[1]
+            d = {'copy': lambda: idx.copy(), 'static_init': lambda: sf.IndexHierarchy(idx), 'go_init': lambda: sf.IndexHierarchyGO(idx),
+                 'deepcopy': lambda: copy.deepcopy(idx)}[what]()
+            live.append((what, d, _snap_any(d)))
+            ctx.tally('derivation', 'index:' + what)
+        else:
+            what = step[1]
+            if what == 'values':
+                idx.values
+            elif what == 'len':
+                len(idx)
+            elif what == 'iter':
+                list(idx)
+            elif what == 'contains':
+                model[0] in idx
+        # every label held before is what it was, the new one follows, and the date depth keeps its type and dtype
+        try:
+            now = [cs(x) for x in canon.index_labels(idx)]
+            dt = idx.values_at_depth(1).dtype
+            member = all((m in idx) and idx.loc_to_iloc(m) == i for i, m in enumerate(model))
+        except Exception as e:
+            ctx.violation('container_unusable_after_growth_call', detail={'step': op, 'exception': type(e).__name__, 'message': str(e)[:200]}, klass=dict(k2, exception=type(e).__name__))
+            return
+        if not canon.seq_eq(now, [cs(x) for x in model], canon.leq) or not member:
+            ctx.violation('columns_not_append_only', detail={'expected': [cs(x) for x in model], 'got': now, 'step': op, 'lookups_agree': member}, klass=k2)
+            return
+        if dt != np.dtype('M8[D]'):
+            ctx.violation('dtype_changed_by_growth', detail={'depth': 1, 'dtype': str(dt), 'step': op}, klass=k2)
+            return
+        for name, obj, snap0 in live:
+            if _snap_any(obj) != snap0:
+                ctx.violation('growth_visible_through_derived_container', detail={'derived': name, 'step': op}, klass=dict(klass, derived='index:' + name))
+                return
+    ctx.evaluation(repr(case), bool(grown))
 
 
 def _check_frame_history(case, ctx):
@@ -841,6 +935,31 @@ def _check_index_history(case, ctx):
                 except Exception:
                     after = None
                 ctx.violation('invalid_growth_accepted', detail={'growth': op, 'labels': repr(step[1]), 'after': after}, klass=dict(k2, growth='index_' + op))
+                return
+        elif op == 'extend_type_mismatch':
+            # whole new outer branches, but the date depth of the other tree is a typed index this tree's plain depth cannot take:
+            # the call is refused, and a refused growth leaves the tree as it was (checked below, and by every later step)
+            depth = case['depth']
+            other = sf.IndexHierarchy.from_labels([(o,) + ('m',) * (depth - 2) + (d,) for o in step[1] for d in ('2020-01-01', '2020-01-02')],
+                                                  index_constructors=(sf.Index,) * (depth - 1) + (sf.IndexDate,))
+            before = labels_now()
+            try:
+                idx.extend(other)
+            except Exception as e:
+                ctx.tally('outcome', 'rejected')
+                ctx.tally('rejection_class', 'type_mismatch:' + type(e).__name__)
+                rejected += 1
+                try:
+                    after = labels_now()
+                except Exception as e2:
+                    ctx.violation('container_unusable_after_growth_call', detail={'step': op, 'exception': type(e2).__name__, 'message': str(e2)[:200]},
+                                  klass=dict(k2, exception=type(e2).__name__))
+                    return
+                if not canon.seq_eq(after, before, canon.leq):
+                    ctx.violation('rejected_growth_changed_container', detail={'growth': op, 'before': before, 'after': after, 'exception': type(e).__name__}, klass=dict(k2, growth='index_' + op))
+                    return
+            else:
+                ctx.tally('not_judged', 'type_mismatch_extend_accepted')
                 return
         elif op == 'derive':
             what = step[1]
